@@ -109,6 +109,10 @@ let () =
         let wrap = match Caseio.meta c "wrap" with "ukf" -> 1 | "sukf" -> 2 | _ -> 0 in
         let ut = if Caseio.has c "ut" then Caseio.get_mat c "ut" else [| [| 1.0; 2.0; 0.0 |] |] in
         let ys = Caseio.get_mat c "ys" in
+        (* physical units of the state coordinates (mat D of a case rewritten x -> D x; all 1 otherwise): a deviation of a
+           position is measured against the size of its own coordinate, and the triangular solve that maps a position back
+           to draws is done on the rows divided by d_r (row scaling of L and of x - m: the solution is the same) *)
+        let dsc = if Caseio.has c "D" then (Caseio.get_mat c "D").(0) else Array.make n 1.0 in
         let w name = Array.of_list (Caseio.get_word c name) in
         let fl_ a k = k < Array.length a && a.(k) <> "0" in
         let gcok = w "gcok" and l1 = w "l1" and l2 = w "l2" and l3 = w "l3" and l4 = w "l4" and lok = w "lok" in
@@ -154,14 +158,14 @@ let () =
               List.iteri (fun i (((x, _), _), _) ->
                   let xm = mat_of_lmx x in
                   for r = 0 to n - 1 do
-                    let d = abs_float (xm.(r).(0) -. xi.(r).(i)) /. (1.0 +. abs_float xi.(r).(i)) in
+                    let d = abs_float (xm.(r).(0) -. xi.(r).(i)) /. (dsc.(r) +. abs_float xi.(r).(i)) in
                     if d > !dev then dev := d
                   done) corr0;
               if !dev > 1e-6 then begin
                 incr refact; refactored := true;
                 let zs' = List.mapi (fun i ((((_, mu), p), _), z) ->
-                    let l = mat_of_lmx (ldlt (nat_of_int n) p) and mu = mat_of_lmx mu in
-                    let rhs = Array.init n (fun r -> xi.(r).(i) -. mu.(r).(0)) in
+                    let l = Array.mapi (fun r row -> Array.map (fun v -> v /. dsc.(r)) row) (mat_of_lmx (ldlt (nat_of_int n) p)) and mu = mat_of_lmx mu in
+                    let rhs = Array.init n (fun r -> (xi.(r).(i) -. mu.(r).(0)) /. dsc.(r)) in
                     let z' = solve l rhs in
                     let zz = Array.fold_left (fun a v -> a +. v *. v) 0.0 z'
                     and zz0 = zz_of z in
